@@ -14,7 +14,8 @@ jobs with that key that are not yet being processed."
 
 For the legacy scheduler all clauses but one hold at full strength (at most once even
 unconditionally: there is no recapture).  The crash-recovery / at-least-once clause is FALSE:
-`legacy_crash_recovery_full_fails`, `legacy_crashed_capture_never_runs`.
+`legacy_crash_recovery_full_fails`, `legacy_crashed_capture_never_runs`,
+`legacy_bad_target_strands_batch`.
 -/
 import Mistral.Lemmas.SchedLegacy
 import Mistral.Gen.SchedLegacyFacts
@@ -176,11 +177,13 @@ example : (lRun none (lInit 1)
 /-- Pick-up.  In ANY state: a committed, due call whose flag is clear is captured and queued by
     a poll (select, capture) of any live idle instance (no batch limit).  This is the restriction
     of the crash-recovery clause that holds: `processing = false`, i.e. no instance died (or is
-    stalled) between its capture and its delete of this call. -/
+    stalled) between its capture and its delete of this call, and no call captured together with
+    it is un-preparable (`lAnyBad … = false`, decidable). -/
 theorem legacy_crash_recovery_partial (s : LState) (i j : Nat) (r : LRow)
     (hi : s.insts[i]? = some (true, .idle))
     (hr : s.rows[j]? = some r) (hv : r.vis = .committed) (hdue : r.executeAt ≤ s.clock)
-    (hp : r.processing = false) :
+    (hp : r.processing = false)
+    (hgood : lAnyBad s.rows (lCaptureAll (lSelect none s.clock s.rows) s.rows).2 = false) :
     (j, s.clock, i) ∈ (lRun none s [.select i, .capture i]).caps ∧
       ∃ ids, (lRun none s [.select i, .capture i]).insts[i]? = some (true, .busy ids ids) ∧ j ∈ ids := by
   have hel : lEligible s.clock r = true := by
@@ -194,7 +197,11 @@ theorem legacy_crash_recovery_partial (s : LState) (i j : Nat) (r : LRow)
   refine ⟨?_, ?_⟩
   · simp only [List.mem_append, List.mem_reverse, List.mem_map]
     exact Or.inl ⟨j, hq, rfl⟩
-  · exact ⟨_, by simp [hne], hq⟩
+  · exact ⟨_, by simp [hne, hgood], hq⟩
+
+-- non-vacuity of the partial statement: instance 0 died BEFORE capturing, instance 1 picks the call up
+example : (0, 1, 1) ∈ (lRun none (lRun none (lInit 2) [.schedule 1 7 0, .commit 0, .select 0, .crash 0, .tick 1])
+    [.select 1, .capture 1]).caps := by decide
 
 /-- the head of the to-do list is invoked by the next step of the loop, now, by that instance -/
 theorem legacy_busy_head_runs (b : Option Nat) (s : LState) (i a : Nat) (ids todo : List Nat)
@@ -251,6 +258,27 @@ theorem legacy_crashed_capture_never_runs (b : Option Nat) (n : Nat) (pre rest :
   rw [lRun_append]
   simp only [lRun]
   rw [(lStuck_run b j rest _ hst).2, h0]
+
+/-- Second cause, no crash needed: when a captured call cannot be prepared (`_prepare_calls` raises
+    after `_capture_calls` has committed the flags), EVERY call captured in the same batch is never
+    invoked, whatever happens afterwards — the instance is alive and keeps polling. -/
+theorem legacy_bad_target_strands_batch (b : Option Nat) (n : Nat) (pre rest : List LStep) (i j : Nat)
+    (cands : List Nat)
+    (hi : (lRun b (lInit n) pre).insts[i]? = some (true, .selected cands))
+    (hj : j ∈ (lCaptureAll cands (lRun b (lInit n) pre).rows).2)
+    (hbad : lAnyBad (lRun b (lInit n) pre).rows (lCaptureAll cands (lRun b (lInit n) pre).rows).2 = true) :
+    lInvCount (lRun b (lInit n) (pre ++ .capture i :: rest)) j = 0 := by
+  obtain ⟨hst, h0⟩ := lBadBatch_strands b (lCnt_reachable b n pre) hi hj hbad
+  rw [lRun_append]
+  simp only [lRun]
+  rw [(lStuck_run b j rest _ hst).2, h0]
+
+-- non-vacuity: a valid call (0) and an un-preparable one (1) selected together
+example : (lRun none (lInit 1) [.schedule 0 7 0, .scheduleBad 0 7 0, .commit 0, .select 0]).insts[0]? =
+      some (true, .selected [1, 0]) ∧
+    lAnyBad (lRun none (lInit 1) [.schedule 0 7 0, .scheduleBad 0 7 0, .commit 0, .select 0]).rows
+      (lCaptureAll [1, 0] (lRun none (lInit 1) [.schedule 0 7 0, .scheduleBad 0 7 0, .commit 0, .select 0]).rows).2 = true := by
+  decide
 
 -- non-vacuity of the hypotheses: an instance busy with a captured, not yet invoked call
 example : (lRun none (lInit 2) [.schedule 0 7 0, .commit 0, .select 0, .capture 0]).insts[0]? =
